@@ -57,6 +57,7 @@ env["VERIF_NOLOCK"] = "1"
 assert run("git -C /repo status --porcelain")[1].strip() == "", "/repo is not clean"
 rc, out = run(f"git -C /repo apply {seed}/patch.diff")
 assert rc == 0, out
+res["repo_head"] = run("git -C /repo rev-parse --short HEAD")[1].strip()
 res["checks"] = {}
 try:
     for p in props:
